@@ -91,6 +91,9 @@ pub struct GOpts {
     pub leading_trailing_blank: bool,
     /// restrict names to this pool (edit-history workloads with collisions)
     pub name_pool: Option<&'static [&'static str]>,
+    /// whitespace-only continuation lines between the lines of a value (error-free for the
+    /// readers, they carry no value line); used by the reformatting monitors
+    pub blank_continuations: bool,
 }
 
 impl Default for GOpts {
@@ -108,6 +111,7 @@ impl Default for GOpts {
             exotic_names: true,
             leading_trailing_blank: true,
             name_pool: None,
+            blank_continuations: false,
         }
     }
 }
@@ -298,6 +302,11 @@ pub fn gen_doc(r: &mut Rng, o: &GOpts) -> GDoc {
                     if shape >= 6 {
                         feats.push("multi-line");
                         for _ in 0..r.range(1, o.max_lines.max(1)) {
+                            if o.blank_continuations && r.chance(1, 4) {
+                                t.push('\n');
+                                t.push_str(*r.pick(&[" ", "\t", "  "]));
+                                feats.push("blank-continuation");
+                            }
                             let ind = *r.pick(&INDENTS);
                             let l = gen_line(r, o, &mut uniq, true);
                             t.push('\n');
